@@ -38,14 +38,13 @@ def _weight(label):
 # statement-granularity pass: every statement of the request path (transaction id generation, registry, worker queue)
 # is a scheduling point: an id that is read and incremented without the lock is then visible
 LINE_ANCHORS = sched.LineAnchors([
-    ('provider/providerimpl.py', 'generate_transaction_id'),
     ('provider/providerimpl.py', 'handle_operation_request'),
     ('provider/sco.py', '*'),
     ('provider/operations.py', '*'),
     ('provider/porttypes/setserviceimpl.py', '*'),
     ('provider/porttypes/porttypebase.py', '*'),
     ('provider/porttypes/contextserviceimpl.py', '*'),
-])
+], opcode_level=[('provider/providerimpl.py', 'generate_transaction_id')])
 
 
 def _line_weight(label):
